@@ -47,6 +47,8 @@ def load_findings():
 def props_for_failure(unit_cfg, fn, kind):
     """which properties a failed obligation in function fn of this unit counts against."""
     fmap = unit_cfg.get("functions", {})
+    if not isinstance(fmap, dict):
+        fmap = {}
     ent = fmap.get(fn) or fmap.get("*") or {}
     is_safety = any(k in kind for k in SAFETY_KINDS)
     if is_safety:
@@ -348,7 +350,9 @@ def main():
     seed = int(os.environ.get("VERIF_SEED", "0") or 0)
     cfg = load_cfg()
     if a.setup:
-        sys.exit(kani_run.setup(a.repo))
+        rc1 = kani_run.setup(a.repo)
+        rc2 = native_run.setup(a.repo)
+        sys.exit(0 if rc1 == 0 else 1)   # the native companion is optional (witness search only)
     if a.replay:
         with open(a.replay) as f:
             rp = json.load(f)
@@ -362,4 +366,12 @@ def main():
 
 
 if __name__ == "__main__":
-    main()
+    try:
+        main()
+    except SystemExit:
+        raise
+    except Exception:   # an internal error of the machinery is never an alarm
+        import traceback
+        traceback.print_exc()
+        print("UNDECIDED: internal error of the check driver", file=sys.stderr)
+        sys.exit(2)
